@@ -2,7 +2,10 @@ module gverif
 
 go 1.23
 
-require golang.org/x/tools v0.29.0
+require (
+	github.com/antlr/antlr4 v0.0.0-20210105192202-5c2b686f95e1
+	golang.org/x/tools v0.29.0
+)
 
 require (
 	golang.org/x/mod v0.22.0 // indirect
